@@ -341,6 +341,7 @@ func runC02(c *ctx) {
 		}
 		return
 	}
+	c02Names(c)
 	c.rule = "the C01 generator over every zoo type (incl. custom class names via HessianCodecName, 21-class messages, shared pointers in Outer/Holder/Node); every emitted message is parsed by the reference parser (Go mirror of Coq hparse, cross-checked case by case) and matched, in wire order, against the Go value: class names, lower-cased field names in declaration order, list type names and true counts, back-reference ordinals. Distinct by (type, seed); non-trivial = contains a container or struct."
 	n := 120
 	if c.tier == "thorough" {
@@ -431,4 +432,22 @@ func c02Graph(c *ctx, val interface{}, seed uint64) {
 		c.fail("graph output does not denote the value", in, p, cls)
 	}
 	encCorr(c, val, nm, bs, h)
+}
+
+// the name helpers on every first character that matters (all of printable ASCII, so both ends
+// of A-Z and a-z and their neighbours, and multi-byte first characters), against the model
+func c02Names(c *ctx) {
+	firsts := []string{"é", "Ω", "中", "\U0001F600"}
+	for b := 0x20; b <= 0x7e; b++ {
+		firsts = append(firsts, string(rune(b)))
+	}
+	for _, f := range firsts {
+		for _, tail := range []string{"", "b", "Bc", "Zz", "_1"} {
+			name := f + tail
+			c.eval("name:" + name)
+			c.corr("lower "+nameStr(name), nameStr(hessian.VerifLowerName(name)))
+			c.corr("cap "+nameStr(name), nameStr(hessian.VerifCapitalizeName(name)))
+			c.corr("rootelem "+nameStr("[]"+name), nameStr(hessian.VerifArrayRootElemName("[]"+name)))
+		}
+	}
 }
